@@ -760,6 +760,7 @@ def _run(ctx):
                   'what earlier iterations contributed', 'dataflow')
     accumulators(ctx, r8)
     versioned_merges_only(ctx, r8)
+    every_published_key_versioned(ctx, r8)
 
 
 # (function, accumulated variable): the variable is initialised before a
@@ -1033,6 +1034,44 @@ def version_paths(ctx, rule):
                        ctx.construct(f, c),
                        'a version key is not the full path (prefix + key)',
                        ctx.loc(f, c))
+
+
+def every_published_key_versioned(ctx, rule):
+    """The writer of the version bookkeeping: every key of what a task
+    published - at every nesting level, whatever its value (None, '', 0
+    included) - is recorded exactly when it is a leaf and recursed into
+    exactly when it is a mapping.  A key that is skipped keeps its old
+    version: the merge then prefers another branch's stale value."""
+    prog = ctx.prog
+    f = prog.func(CV + '._get_published_keys_recursively')
+    cfg = ctx.cfg(f)
+    acc, pub = f.params[0], f.params[1]
+    loops = [x for x in own_nodes(f.node) if isinstance(x, ast.For) and
+             dotted(x.iter) == pub and isinstance(x.target, ast.Name)]
+    if len(loops) != 1:
+        raise AnalysisError('published keys: the key loop is lost')
+    key = loops[0].target.id
+    D = 'isinstance(%s[%s], dict)' % (pub, key)
+    apps = [(n, c) for n, c in cfg.calls(
+        lambda c: U.call_name(c) == 'append' and
+        dotted(c.func.value) == acc)]
+    recs = [(n, c) for n, c in cfg.calls(
+        lambda c: U.call_name(c) == f.name)]
+    ok = len(apps) == 1 and len(recs) == 1
+    if ok:
+        ok = U.guarded(cfg, apps[0][0], D, False) and \
+            U.only_guards(cfg, apps[0][0], [(D, False)]) and \
+            U.guarded(cfg, recs[0][0], D, True) and \
+            U.only_guards(cfg, recs[0][0], [(D, True)]) and \
+            norm(recs[0][1].args[1]) == '%s[%s]' % (pub, key) and \
+            not [x for x in ast.walk(loops[0])
+                 if isinstance(x, (ast.Continue, ast.Break, ast.Return))]
+    rule.check(ok, ctx.construct(f, extra='every key: leaf recorded, mapping '
+                                 'descended'),
+               'not every published key gets a version: the leaf is '
+               'recorded / the mapping is descended under a condition other '
+               'than "the value is (not) a dict", or the loop is left early',
+               ctx.loc(f))
 
 
 def merge_shape(ctx, rule):
